@@ -79,7 +79,7 @@ pub(super) fn write_ht(
     }
 
     while sent > 0 {
-        io_handle.recv().unwrap();
+        io_handle.recv().unwrap().result?;
         sent -= 1;
     }
 
